@@ -1,6 +1,7 @@
 // Native (unscheduled) sessions with the genuine std::thread: sensor runs for C11
 // under ThreadSanitizer, with seeded pacing of the application thread.
 //   drv_native stress <dir> <seed> <sessions>
+//   drv_native big <dir> 0 0                   more than 4 GiB of objects (positions beyond 2^32)
 //   drv_native pair <dir> <seed> <rounds>      three sessions at the same time, compared with the same sessions alone
 #include <chrono>
 #include <fstream>
@@ -101,6 +102,63 @@ int main(int argc, char ** argv) {
     std::mt19937_64 rng(seed);
     long objects = 0, bad = 0, differ = 0;
     std::string first;
+    if (mode == "big") {
+        // positions beyond 2^32: more than 4 GiB of (highly compressible) objects, then one default-constructed object
+        // of every class; everything must come back, in order, with its class
+        std::string fn = dir + "/big_" + std::to_string((long) getpid()) + ".blf";
+        const long filler = 4106;                 // x 1 MiB of text
+        alarm(300);                               // the unchanged library needs about 15 s; a session that hangs is killed
+        std::vector<std::string> classes;
+        {
+            File f;
+            f.compressionLevel = 1;
+            f.open(fn.c_str(), std::ios_base::out);
+            for (long i = 1; i <= filler; i++) {
+                auto * t = new AppText;
+                t->objectTimeStamp = (uint64_t) i;
+                t->text.assign((size_t) 1 << 20, 'a');
+                f.write(t);
+            }
+            for (uint32_t c = 0; c < 256; c++) {
+                if (c == 10) continue;
+                ObjectHeaderBase * o = File::createObject((ObjectType) c);
+                if (!o) continue;
+                if (File::createObject(o->objectType) == nullptr) { delete o; continue; }   // (listed finding: a code the reader skips)
+                classes.push_back(typeid(*o).name());
+                f.write(o);
+            }
+            f.close();
+        }
+        long got = 0, wrong = 0;
+        std::string first;
+        {
+            File f;
+            f.open(fn.c_str(), std::ios_base::in);
+            for (;;) {
+                ObjectHeaderBase * o = f.read();
+                if (!o) break;
+                got++;
+                if (got <= filler) {
+                    auto * t = dynamic_cast<AppText *>(o);
+                    if (!t || (long) t->objectTimeStamp != got || t->text.size() != ((size_t) 1 << 20)) wrong++;
+                } else {
+                    size_t k = (size_t) (got - filler - 1);
+                    if (k >= classes.size() || classes[k] != typeid(*o).name()) {
+                        wrong++;
+                        if (first.empty()) first = "object " + std::to_string(got) + " is " + typeid(*o).name();
+                    }
+                }
+                delete o;
+            }
+            f.close();
+        }
+        unlink(fn.c_str());
+        JObj o;
+        o.puts("driver", "native_big").put("sessions", 1).put("objects", got).put("expected", filler + (long) classes.size()).put("bad", wrong);
+        if (!first.empty()) o.puts("first", first);
+        printf("RESULT %s\n", o.str().c_str());
+        return 0;
+    }
     if (mode == "pair") {
         // K File objects used at the same time by K application threads (each session from one thread): every session
         // must write the bytes and deliver the objects it writes/delivers when it runs alone in the process
